@@ -87,7 +87,7 @@ func (w *World) verifyFunc(key string) (fc *FuncCtx) {
 		return true
 	})
 	sig := obj.Type().(*types.Signature)
-	st := &State{guard: "true", vars: map[types.Object]Term{}, alias: map[types.Object]ast.Expr{}, ghost: map[string]Term{}, held: map[string]string{}}
+	st := &State{guard: "true", vars: map[types.Object]Term{}, alias: map[types.Object]ast.Expr{}, ghost: map[string]Term{}, held: map[string]string{}, exprAlias: map[types.Object]ast.Expr{}}
 	fc.oldState = st // placeholder for globalInit during entry
 	entryEnv := w.newEnv(pkg)
 	bind := func(v *types.Var, name string) {
@@ -205,6 +205,19 @@ func (fc *FuncCtx) checkPost(st *State, vals []Term, n ast.Node) {
 		}
 		fc.oblige(st, "post", site+".ret"+ro, t.S, n, e.Text)
 	}
+	// exit assertions: like ensures, with the function's locals in scope (not exported to callers)
+	for i, e := range fc.contract.ExitAsserts {
+		lenv := fc.codeEnv(st, fc.decl.Body.Rbrace-1)
+		for k, v := range env.vars {
+			lenv.vars[k] = v
+		}
+		t := fc.cevalIn(lenv, e, n)
+		site := "exit" + strconv.Itoa(i+1)
+		if e.Tag != "" {
+			site = e.Tag
+		}
+		fc.oblige(st, "post", site+".ret"+ro, t.S, n, e.Text)
+	}
 	// frame: pointer parameters change only along the modifies paths
 	if fc.contract.Opts["noframe"] != "" {
 		return
@@ -257,9 +270,14 @@ func (fc *FuncCtx) checkPost(st *State, vals []Term, n ast.Node) {
 			continue
 		}
 		listed := false
-		for root := range byRoot {
+		for root, paths := range byRoot {
 			if root == v.Name() || strings.HasSuffix(root, "."+v.Name()) {
 				listed = true
+			}
+			for _, p := range paths {
+				if len(p) > 0 && p[0] == v.Name() && v.Pkg() != nil && v.Pkg().Name() == root {
+					listed = true // package-qualified global
+				}
 			}
 		}
 		if !listed {
@@ -293,7 +311,7 @@ func (w *World) verifyLemma(l *Lemma) (fc *FuncCtx) {
 			panic(r)
 		}
 	}()
-	st := &State{guard: "true", vars: map[types.Object]Term{}, alias: map[types.Object]ast.Expr{}, ghost: map[string]Term{}, held: map[string]string{}}
+	st := &State{guard: "true", vars: map[types.Object]Term{}, alias: map[types.Object]ast.Expr{}, ghost: map[string]Term{}, held: map[string]string{}, exprAlias: map[types.Object]ast.Expr{}}
 	env := w.newEnv(pkg)
 	for _, p := range l.Params {
 		t := fc.fresh("lem_"+p.Name, p.Type)
@@ -328,7 +346,7 @@ func (w *World) verifyGlobalInvs(pkgPath string) (fc *FuncCtx) {
 			panic(r)
 		}
 	}()
-	st := &State{guard: "true", vars: map[types.Object]Term{}, alias: map[types.Object]ast.Expr{}, ghost: map[string]Term{}, held: map[string]string{}}
+	st := &State{guard: "true", vars: map[types.Object]Term{}, alias: map[types.Object]ast.Expr{}, ghost: map[string]Term{}, held: map[string]string{}, exprAlias: map[types.Object]ast.Expr{}}
 	fc.oldState = st
 	// initialisers of all package-level variables with a value
 	inits := map[*types.Var]ast.Expr{}
